@@ -15,10 +15,33 @@ WRAPPERS_RETURNING_ARG0 = {
 }
 
 
+# id() of the Name nodes that refer to a *local alias* of a connector (`c = state._connector` ... `c.np`): filled once per index by
+# register_connector_aliases, so that the recognition of connector expressions does not depend on what a local is called
+_ALIAS_NAME_NODES: Set[int] = set()
+
+
+def register_connector_aliases(idx: Index) -> None:
+    for fn in idx.all_functions(include_nested=True):
+        aliases: Set[str] = set()
+        changed = True
+        while changed:
+            changed = False
+            for n in ast.walk(fn.node):
+                if isinstance(n, ast.Assign) and len(n.targets) == 1 and isinstance(n.targets[0], ast.Name) and n.targets[0].id not in aliases:
+                    v = n.value
+                    if (isinstance(v, ast.Attribute) and v.attr in CONNECTOR_NAMES) or (isinstance(v, ast.Name) and (v.id in CONNECTOR_NAMES or v.id in aliases)):
+                        aliases.add(n.targets[0].id)
+                        changed = True
+        if aliases:
+            for n in ast.walk(fn.node):
+                if isinstance(n, ast.Name) and n.id in aliases:
+                    _ALIAS_NAME_NODES.add(id(n))
+
+
 def is_connector_expr(node: ast.AST) -> bool:
-    """`connector`, `self._connector`, `state._connector`, `self.connector`, `x._connector` …"""
+    """`connector`, `self._connector`, `state._connector`, `self.connector`, `x._connector`, or a local bound to one of these"""
     if isinstance(node, ast.Name):
-        return node.id in CONNECTOR_NAMES
+        return node.id in CONNECTOR_NAMES or id(node) in _ALIAS_NAME_NODES
     if isinstance(node, ast.Attribute):
         return node.attr in CONNECTOR_NAMES
     return False
@@ -35,6 +58,7 @@ def is_njit(fn: FuncInfo) -> bool:
 class Resolver:
     def __init__(self, idx: Index):
         self.idx = idx
+        register_connector_aliases(idx)
         self.connector_base = idx.find_class("piquasso.api.connector", "BaseConnector")
         self.connector_classes = [c for c in idx.subclasses(self.connector_base, strict=False)]
         self._local_defs: Dict[int, Dict[str, FuncInfo]] = {}
